@@ -195,6 +195,17 @@ func v4accRefHist(args []string) (want []string, class string) {
 			if c.kind == "labels" {
 				toks = append([]string(nil), parsed...)
 			}
+		case "c":
+			if i := atoi(f[1]); c.kind == "labels" && i < len(toks) {
+				b := unhx(toks[i])
+				for k, ch := range b {
+					if (ch >= 'A' && ch <= 'Z') || (ch >= 'a' && ch <= 'z') {
+						b[k] = ch ^ 32
+					}
+				}
+				toks = append([]string(nil), toks...)
+				toks[i] = hx(b)
+			}
 		case "s":
 			g := strings.SplitN(f[1], ":", 2)
 			if i := atoi(g[0]); i < len(toks) {
@@ -341,7 +352,12 @@ func v4accGenHist(r *Rng, c *ctorEntry) (string, []string) {
 				steps = append(steps, "a:"+v4accGenElem(r, c.kind))
 				tags = append(tags, "edit=append")
 			case 4:
-				if c.kind == "labels" && r.Bool() {
+				if c.kind == "labels" && r.Chance(1, 3) {
+					// the same spelling in another letter case, same number of names
+					// (seeded change C17-4: a case-insensitive "unchanged?" test)
+					steps = append(steps, fmt.Sprintf("c:%d", r.Intn(3)))
+					tags = append(tags, "edit=case-only")
+				} else if c.kind == "labels" && r.Bool() {
 					steps = append(steps, "R")
 					tags = append(tags, "edit=restore")
 				} else {
